@@ -257,6 +257,8 @@ def spec_violation(case, impl, replies):
         if case["uses_adv"] or True:
             if _adv_marker(case) in out:
                 return "the raw value of `adv` (used only in expression tags of escaping files) occurs in the output: %r" % _around(out, _adv_marker(case))
+    if case.get("may_reject") and want[0] == "ParseError":
+        return None      # accepted by this tree although the model rejects it; the output was checked for safety above
     if want != got:
         return "generate() gave %s, owner-based interpretation gives %s" % (c19._short(got), c19._short(want))
     return None
